@@ -7,6 +7,7 @@ import (
 	"strings"
 
 	"github.com/bronlabs/bron-crypto/pkg/base/curves/k256"
+	"github.com/bronlabs/bron-crypto/pkg/base/curves/p256"
 	"github.com/bronlabs/bron-crypto/pkg/mpc/sharing"
 
 	ddkls "verif/harness/internal/drive/dkls23"
@@ -15,17 +16,20 @@ import (
 	"verif/harness/internal/vh"
 )
 
-// stored Lindell17 key material (k256): policy texts with concrete IDs
-var l17Policies = []string{
-	"T:2:1,2,3",
-	"N:1|2|3", // 2-of-3 as CNF: non-ideal, two share components per holder
-	"T:2:1099511627781,9223372036854775809",
+// stored Lindell17 key material: policy texts with concrete IDs, per curve
+var l17Policies = map[string][]string{
+	"k256": {
+		"T:2:1,2,3",
+		"N:1|2|3", // 2-of-3 as CNF: non-ideal, two share components per holder
+		"T:2:1099511627781,9223372036854775809",
+	},
+	"p256": {"T:2:1,2,3"},
 }
 
-func l17Available() []string {
+func l17Available(curve string) []string {
 	var out []string
-	for _, p := range l17Policies {
-		if _, err := os.Stat(keys.L17Path("k256", p)); err == nil {
+	for _, p := range l17Policies[curve] {
+		if _, err := os.Stat(keys.L17Path(curve, p)); err == nil {
 			out = append(out, p)
 		}
 	}
@@ -34,19 +38,28 @@ func l17Available() []string {
 
 // genL17Keys generates the missing corpus files (slow; thorough tier or C01_GENKEYS=1 only).
 func genL17Keys() {
-	for i, p := range l17Policies {
+	for i, p := range l17Policies["k256"] {
 		if _, err := os.Stat(keys.L17Path("k256", p)); err == nil {
 			continue
 		}
-		fmt.Fprintln(os.Stderr, "generating Lindell17 key material for", p)
+		fmt.Fprintln(os.Stderr, "generating Lindell17 key material (k256) for", p)
 		if err := keys.GenerateL17(k256.NewCurve(), "k256", p, vh.NewRng(1, "C01", "l17keys", i)); err != nil {
+			fmt.Fprintln(os.Stderr, "  failed:", err)
+		}
+	}
+	for i, p := range l17Policies["p256"] {
+		if _, err := os.Stat(keys.L17Path("p256", p)); err == nil {
+			continue
+		}
+		fmt.Fprintln(os.Stderr, "generating Lindell17 key material (p256) for", p)
+		if err := keys.GenerateL17(p256.NewCurve(), "p256", p, vh.NewRng(1, "C01", "l17keys-p256", i)); err != nil {
 			fmt.Fprintln(os.Stderr, "  failed:", err)
 		}
 	}
 }
 
 func lindell17Count(tier string) int {
-	if len(l17Available()) == 0 {
+	if len(l17Available("k256"))+len(l17Available("p256")) == 0 {
 		return 0
 	}
 	if tier == "thorough" {
@@ -58,12 +71,22 @@ func lindell17Count(tier string) int {
 func lindell17Has(policy string) bool { return true }
 
 // lindell17Cases replaces the generic generator for this protocol (stored policies only).
+// curve x hash rotation of the Lindell17 cases: the first four (quick tier) cover a hash wider than the
+// scalar field and one of equal width on both curves
+var ecdsaCombos = [][2]string{{"k256", "sha512"}, {"p256", "sha256"}, {"p256", "sha3-512"}, {"k256", "sha256"},
+	{"k256", "sha384"}, {"p256", "sha512"}, {"k256", "sha3-512"}, {"p256", "sha384"}, {"k256", "sha3-256"}, {"p256", "sha3-384"}}
+
+// lindell17Cases replaces the generic generator for this protocol (stored policies only).
 func lindell17Cases(seed int64, count int) []kase {
-	avail := l17Available()
 	var out []kase
-	for i := 0; i < count && len(avail) > 0; i++ {
+	for i := 0; i < count; i++ {
 		rng := vh.NewRng(seed, "C01", "gen/l17", i)
-		ptxt := avail[i%len(avail)]
+		combo := ecdsaCombos[i%len(ecdsaCombos)]
+		avail := l17Available(combo[0])
+		if len(avail) == 0 {
+			continue
+		}
+		ptxt := avail[(i/2)%len(avail)]
 		p, _ := keys.ParsePolicy(ptxt)
 		q := pickQuorum(p, rng, true, 2, 2)
 		if q == nil {
@@ -77,7 +100,7 @@ func lindell17Cases(seed int64, count int) []kase {
 		if i%4 == 3 {
 			sess = "real"
 		}
-		out = append(out, kase{Proto: "lindell17", Variant: "k256,sha256," + comp, Policy: ptxt, Quorum: q, Msg: msgSpec(i, rng, true), Session: sess, Seed: seed*1000 + int64(i)})
+		out = append(out, kase{Proto: "lindell17", Variant: combo[0] + "," + combo[1] + "," + comp, Policy: ptxt, Quorum: q, Msg: msgSpec(i, rng, true), Session: sess, Seed: seed*1000 + int64(i)})
 	}
 	return out
 }
@@ -113,7 +136,7 @@ func evalL17(idx int, k kase, o *outcome) {
 		hf, _ := ddkls.HashFunc(v[1])
 		h := hf()
 		h.Write(msg)
-		if !secpECDSAVerify(pt{x: res.PKX, y: res.PKY}, h.Sum(nil), res.Sig.R, res.Sig.S) {
+		if !ecdsaIndependent(v[0], res.PKX, res.PKY, h.Sum(nil), res.Sig.R, res.Sig.S) {
 			fail("independent-verifier-rejects", res.Trace.Outputs[res.Primary])
 		}
 	}
